@@ -279,6 +279,6 @@ theorem find_spec {s : State} (hi : Inv s) (now : Int) (k : Nat) :
         rw [this]; simp only [Bool.not_false, if_true]
         rw [hsp]
       · show n.e :: List.map (·.e) (s.entries.filter (fun x => x.e.key != n.e.key)) = _
-        rw [map_e_filter_key, hne, hk]; rfl
+        rw [map_e_filter_key, hk, hne]; rfl
 
 end SquidModel.ClpMap
